@@ -1,6 +1,7 @@
 package main
 
 import (
+	"go/token"
 	"fmt"
 	"strings"
 
@@ -180,7 +181,15 @@ func init() {
 				}
 				r.Check(ok, FuncKey(fn), "add/remove dispatch", "isAdd -> AddShares(delegationShares, validatorShares), else ReduceShares(same)", "updateValidatorShares does not pass its two share arguments straight to AddShares/ReduceShares under isAdd", e.Pos(fn.Pos()))
 				sv := CallsTo(fn, "keeper.Keeper.SetValidator")
-				r.Check(len(sv) == 1 && fa.MustFollowAllExits(fn.Blocks[0].Instrs[0], callsAsInstrs(sv)) == nil, FuncKey(fn), "validator persisted", "SetValidator on every path", "updated validator shares are not persisted on every path", e.Pos(fn.Pos()))
+				// one SetValidator after the branches, or one in each: every exit passes one, and each persists the parameter
+				okSV := len(sv) >= 1 && fa.MustFollowAllExits(fn.Blocks[0].Instrs[0], callsAsInstrs(sv)) == nil
+				for _, c := range sv {
+					args := CallArgs(c.Common())
+					if len(args) < 2 || !loadsParamSlot(args[1], "validator") {
+						okSV = false
+					}
+				}
+				r.Check(okSV, FuncKey(fn), "validator persisted", "SetValidator on every path", "updated validator shares are not persisted on every path", e.Pos(fn.Pos()))
 			}
 			for _, k := range []string{"types.AllianceValidator.AddShares", "types.AllianceValidator.ReduceShares"} {
 				fn := r.Need(k)
@@ -448,4 +457,28 @@ func init() {
 				}
 			}
 		}})
+}
+
+// loadsParamSlot: v is the parameter with the reviewed name, or a load of the local slot it was spilled to (its
+// address was taken for a pointer-receiver method), i.e. the parameter's variable as it stands.
+func loadsParamSlot(v ssa.Value, name string) bool {
+	if p, ok := v.(*ssa.Parameter); ok {
+		return reviewedParamName(p) == name
+	}
+	u, ok := v.(*ssa.UnOp)
+	if !ok || u.Op != token.MUL {
+		return false
+	}
+	al, ok := u.X.(*ssa.Alloc)
+	if !ok || al.Referrers() == nil {
+		return false
+	}
+	for _, ref := range *al.Referrers() {
+		if st, ok := ref.(*ssa.Store); ok && st.Addr == ssa.Value(al) {
+			if p, ok := st.Val.(*ssa.Parameter); ok && reviewedParamName(p) == name {
+				return true
+			}
+		}
+	}
+	return false
 }
